@@ -169,6 +169,46 @@ impl Hdr {
             Hdr::Std(h) => h.put(w, false, 0),
         }
     }
+    /// How motion vector differentials are coded and combined with their predictor.
+    pub fn mv_mode(&self) -> MvMode {
+        match self {
+            Hdr::S(_) => MvMode::Wrap,
+            Hdr::Std(h) => match &h.plus {
+                None if h.umv => MvMode::UmvBaseline,
+                Some(p) if p.ufep == 1 && p.opp.modes & 0x200 != 0 => MvMode::UmvPlus { limited: p.uui == 1 },
+                _ => MvMode::Wrap,
+            },
+        }
+    }
+}
+
+/// Motion vector modes (H.263 6.1.1, Annex D as of 1996, Annex D as of 1998 with Table D.3).
+#[derive(Clone, Copy, Debug, PartialEq, Eq)]
+pub enum MvMode {
+    /// Table 14 differentials, vector = predictor + differential wrapped into [-16, 15.5]
+    Wrap,
+    /// Table 14 differentials, vectors up to +-31.5 (PTYPE bit 10 without PLUSPTYPE)
+    UmvBaseline,
+    /// Table D.3 differentials, vector = predictor + differential; `limited`: UUI = 1, the range
+    /// depends on the picture size (Tables D.1, D.2)
+    UmvPlus { limited: bool },
+}
+
+/// Table D.3 code of a differential in half-sample units.
+pub fn put_umv(w: &mut BitWriter, v: i32) {
+    if v == 0 {
+        w.put(1, 1);
+        return;
+    }
+    let a = v.unsigned_abs();
+    let n = 31 - a.leading_zeros();
+    w.put(0, 1);
+    for k in (0..n).rev() {
+        w.put((a >> k) & 1, 1);
+        w.put(1, 1);
+    }
+    w.put((v < 0) as u32, 1);
+    w.put(0, 1);
 }
 
 #[derive(Clone, Debug, PartialEq, Eq, Hash)]
@@ -255,6 +295,10 @@ pub fn put_block(w: &mut BitWriter, b: &Blk) {
 }
 
 pub fn put_mb(w: &mut BitWriter, is_i: bool, mb: &Mb) {
+    put_mb_mode(w, is_i, mb, MvMode::Wrap)
+}
+
+pub fn put_mb_mode(w: &mut BitWriter, is_i: bool, mb: &Mb, mode: MvMode) {
     match mb {
         Mb::NotCoded => {
             assert!(!is_i);
@@ -310,8 +354,13 @@ pub fn put_mb(w: &mut BitWriter, is_i: bool, mb: &Mb) {
             if !kind.is_intra() {
                 assert_eq!(mvd.len(), if kind.is_4v() { 4 } else { 1 });
                 for (x, y) in mvd {
-                    put_mvd(w, *x);
-                    put_mvd(w, *y);
+                    if matches!(mode, MvMode::UmvPlus { .. }) {
+                        put_umv(w, *x as i32);
+                        put_umv(w, *y as i32);
+                    } else {
+                        put_mvd(w, *x);
+                        put_mvd(w, *y);
+                    }
                 }
             }
             for b in blocks.iter() {
@@ -325,8 +374,9 @@ pub fn encode(p: &Pic) -> BitWriter {
     let mut w = BitWriter::new();
     p.hdr.put(&mut w);
     let is_i = p.hdr.pic_type() == PicType::I;
+    let mode = p.hdr.mv_mode();
     for mb in &p.mbs {
-        put_mb(&mut w, is_i, mb);
+        put_mb_mode(&mut w, is_i, mb, mode);
     }
     w
 }
